@@ -1,7 +1,7 @@
 (* C09 — Solution and insertion-cost comparisons obey order laws.
    This file contains only the property theorems, each closed by `exact`, pinned by `Check`,
    followed by Print Assumptions. *)
-From VRP Require Import Base.Tac Base.TotalCmp Model.CostOrder Model.InsCost Model.GoalCtx Proofs.CostOrderP Proofs.InsCostP Proofs.GoalCtxP.
+From VRP Require Import Base.Tac Base.TotalCmp Model.CostOrder Model.InsCost Model.GoalCtx Proofs.CostOrderP Proofs.InsCostP Proofs.F64IntP Proofs.GoalCtxP.
 
 (* any configured goal (single and dominance layers, any fitness vectors): reflexive, antisymmetric *)
 Theorem C09_goal_refl : forall ls f, goal_cmp ls f f = Eq.
@@ -252,6 +252,36 @@ Theorem C09_nonvacuous_inv_ok :
   inv_ok (f64_of_int 3) (f64_of_int (-7)) = true /\ inv_ok NEG_ZERO (f64_of_int 5) = true /\
   inv_ok (f64_of_int 4503599627370495) (f64_of_int 4503599627370496) = true /\ inv_ok 4607182418800017408 F64_MAX = false.
 Proof. exact inv_ok_examples. Qed.
+
+(* ---------- clause 4 at the f64 level, on the exact sub-domain, PROVED (Proofs/F64IntP.v) ----------
+   IEEE-754 binary64 + and - (SpecFloat, the f64 model that is compared bit for bit with Rust's operators on every run) are
+   exact on integer-valued doubles while the result stays below 2^53 ... *)
+Theorem C09_f64_add_exact_on_integers : forall a b, Z.abs a < two53 -> Z.abs b < two53 -> Z.abs (a + b) < two53 ->
+  f64_add (f64_of_int a) (f64_of_int b) = f64_of_int (a + b).
+Proof. exact f64_add_int. Qed.
+Theorem C09_f64_sub_exact_on_integers : forall a b, Z.abs a < two53 -> Z.abs b < two53 -> Z.abs (a - b) < two53 ->
+  f64_sub (f64_of_int a) (f64_of_int b) = f64_of_int (a - b).
+Proof. exact f64_sub_int. Qed.
+(* ... so the f64 operators of InsertionCost refine the Z model of Model/CostOrder.v (any two lengths, zero padding) ... *)
+Theorem C09_icost_add_refines_Z : forall B1 B2 xs ys, 0 < B1 -> 0 < B2 -> B1 + B2 <= two53 ->
+  Forall (bnd B1) xs -> Forall (bnd B2) ys ->
+  ic_add (map f64_of_int xs) (map f64_of_int ys) = map f64_of_int (icost_add xs ys).
+Proof. exact ic_add_refines. Qed.
+Theorem C09_icost_sub_refines_Z : forall B1 B2 xs ys, 0 < B1 -> 0 < B2 -> B1 + B2 <= two53 ->
+  Forall (bnd B1) xs -> Forall (bnd B2) ys ->
+  ic_sub (map f64_of_int xs) (map f64_of_int ys) = map f64_of_int (icost_sub xs ys).
+Proof. exact ic_sub_refines. Qed.
+(* ... and are inverse to each other: bit for bit (after zero padding) on integer-valued vectors with components below 2^52, ... *)
+Theorem C09_icost_add_sub_f64_integers : forall xs ys, Forall (bnd two52) xs -> Forall (bnd two52) ys ->
+  icost_cmp (ic_sub (ic_add (map f64_of_int xs) (map f64_of_int ys)) (map f64_of_int ys)) (map f64_of_int xs) = Eq /\
+  icost_cmp (ic_add (ic_sub (map f64_of_int xs) (map f64_of_int ys)) (map f64_of_int ys)) (map f64_of_int xs) = Eq.
+Proof. exact ic_add_sub_int. Qed.
+(* ... and up to the sign of zero when -0.0 occurs among the components (idbl b: b is -0.0 or an integer-valued double below 2^52) *)
+Theorem C09_icost_add_sub_f64_signed_zero : forall x y, Forall idbl x -> Forall idbl y ->
+  icost_zcmp (ic_sub (ic_add x y) y) x = Eq /\ icost_zcmp (ic_add (ic_sub x y) y) x = Eq.
+Proof. exact ic_add_sub_idbl. Qed.
+Theorem C09_nonvacuous_idbl : idbl NEG_ZERO /\ idbl 0 /\ idbl 4607182418800017408 /\ idbl (f64_of_int (-4503599627370495)).
+Proof. exact idbl_examples. Qed.
 
 (* ---------- comparisons of insertion results that rely on the order ---------- *)
 Theorem C09_select_cost_iff : forall l r, select_cost l r = true <-> icost_cmp l r = Lt.
